@@ -13,6 +13,7 @@ Stage 3 (property on the implementation): the same outputs are compared exactly 
   |A y - b| against a bound derived from dimension and conditioning (see solver_tol).
 """
 import itertools
+import time
 from fractions import Fraction
 from functools import reduce
 
@@ -73,7 +74,7 @@ def kind_class(specs):
 def gen_cases(ctx):
     rng = ctx.rng
     thorough = ctx.tier == 'thorough'
-    mult = 6 if thorough else 1
+    mult = 4 if thorough else 1
     cases = []
     dist = {}
 
@@ -88,7 +89,7 @@ def gen_cases(ctx):
             for _ in range(nf):
                 r = rng.randint(1, big)
                 shp.append((r, r if square else rng.randint(1, big)))
-            if np.prod([a for a, _ in shp]) * np.prod([b for _, b in shp]) <= (4000 if not thorough else 8000):
+            if np.prod([a for a, _ in shp]) * np.prod([b for _, b in shp]) <= (2000 if not thorough else 8000):
                 return shp
 
     # --- apply_tprod: 1..4 factors, rectangular, all kinds, None placeholders, trailing axes
@@ -578,7 +579,9 @@ def run(ctx):
     ]
     cases, dist = gen_cases(ctx)
     log('[C16] %d operator cases: %s' % (len(cases), dist))
+    t0 = time.time()
     results = run_impl(ctx, cases)
+    log('[C16] implementation run: %.1fs' % (time.time() - t0))
 
     # ---- stage 3: the property on the implementation, independent dense oracle
     nfail = 0
@@ -615,7 +618,9 @@ def run(ctx):
     if st:
         files.append(('C16_selftest', st))
     disagreements = []
+    t0 = time.time()
     evals = ctx.coq_eval_many(files, timeout=1500)
+    log('[C16] %d case files evaluated in Coq: %.1fs' % (len(files), time.time() - t0))
     for (name, ok, out), chunk in zip(evals, chunks + [None]):
         badidx = parse_coq_list_of_nat(out) if ok else None
         if name == 'C16_selftest':
@@ -644,7 +649,9 @@ def run(ctx):
 
     # ---- solver factories
     scases = gen_solver_cases(ctx)
+    t0 = time.time()
     sres = run_impl(ctx, scases)
+    log('[C16] %d solver cases: %.1fs' % (len(scases), time.time() - t0))
     worst = 0.0
     sdist = {}
     for c, r in zip(scases, sres):
@@ -688,9 +695,27 @@ def replay(ctx, rec):
 
 
 META = {
-    'technique': 'Rocq proofs over an arbitrary commutative ring (induction over the factor list / block list, sum algebra) '
-                 '+ exact integer correspondence of every operator class with the implementation, evaluated in Coq',
-    'level_text': 'see the final report; filled in by the coordinator from the theorem list',
-    'level_note': 'Trusted: Coq kernel + vm_compute; hand transcription of the operator classes into Gallina and the reading of '
-                  'numpy axis/reshape conventions, validated by the exact correspondence run; LAPACK/SuperLU/eigh contracts.',
+    'technique': 'Rocq proofs over an arbitrary commutative ring (induction over the operand list / block list / CSR row, '
+                 'sum algebra, ravel/unravel index arithmetic) + exact integer correspondence of every operator class with '
+                 'the implementation evaluated by vm_compute + dense-definition oracle on the implementation + exact residual '
+                 'bounds for the solver factories',
+    'level_text': 'Theorems (Coq, unbounded, any commutative ring): apply_tprod computes the tensor-product action '
+                  'Y[a,t] = sum_J prod_k B_k[a_k,j_k] X[J,t] for every number of operands, dense (tensordot) and '
+                  'sparse/LinearOperator (_modek_tensordot_sparse: rollaxis, matricize, apply, reshape back) operands, rectangular '
+                  'shapes, None placeholders and trailing axes, with the stated result shape (apply_tprod_spec, modek_sparse_spec, '
+                  'kron_dense_spec_partial = the core of _apply_kronecker_dense); BaseBlockOperator accumulation equals the sum of '
+                  'the placed blocks and its transpose the transposed matrix (block_spec, block_transpose); BlockDiagonalOperator '
+                  'with _sizes_to_ranges equals block_diag and its transpose (blockdiag_spec, blockdiag_transpose); Diagonal, Identity, '
+                  'Null operators (diag_spec, diag_symmetric, identity_spec, null_spec); SubspaceOperator equals sum P B P^T for any '
+                  'subspace family, and the transposed flag gives the transposed matrix (subspace_spec, subspace_transpose); '
+                  'CSRRowSlice/CSRRowSubset equal the selected rows of the matrix the CSR structure denotes, also with unsorted and '
+                  'duplicate entries (rowslice_spec, rowsubset_spec). NOT theorems (exact correspondence + dense oracle only): the '
+                  'reshape around the Kronecker core, the column-major _apply_kronecker_linops sweeps, BlockOperator grid layout, '
+                  'modek_tprod axis placement, solver factories. The model is tied to /repo by ~1100 (thorough ~6700) random integer '
+                  'cases over all operator classes, storage kinds (ndarray C/F, csr, csc, aslinearoperator, plain LinearOperator), '
+                  'f8/f4, vector/(n,1)/matrix arguments, .T/.H/.T.T, compared exactly inside Coq and against np.kron/np.block/... ; '
+                  'make_solver / make_kronecker_solver / fastdiag_solver are checked by exactly computed residuals against a stated bound.',
+    'level_note': 'Trusted: Coq kernel + vm_compute; hand transcription of the operator classes into Gallina and the reading of numpy '
+                  'axis/reshape/F-order conventions (validated by the exact correspondence run); scipy LinearOperator.dot/matvec/matmat '
+                  'wrappers; LAPACK/SuperLU/eigh contracts (numerical residual check only). Adjoints are checked for real operands.',
 }
